@@ -1,7 +1,7 @@
 """What MANIFEST.json claims, per property.  Keep in step with the harness modules."""
 
 SOURCE_COMMITS = []
-PYVC_PROPS = {'C01', 'C02', 'C03', 'C04', 'C06', 'C08', 'C09', 'C11', 'C13', 'C16', 'C17', 'C18', 'C20'}
+PYVC_PROPS = {'C01', 'C02', 'C03', 'C04', 'C06', 'C08', 'C09', 'C11', 'C13', 'C16', 'C17', 'C18', 'C19', 'C20'}
 NOTES = ('Two engines share one contract language (DESIGN.md section 2). Engine A (pyvc) is the deductive, unbounded tier; '
          'Engine B (symx) is the bounded stand-in and is labelled so in every evidence file. Exit codes: 0 held, 1 violation '
          '(replayed natively), 2 undecided, 3 checker error.')
